@@ -4,7 +4,7 @@ NOTES = ("All checks: ./check <id> --tier quick|thorough; setup builds the Coq d
          "and compiles the driver. known_findings.json lists recorded defects (kind known) and repaired ones (kind fixed).")
 NOT_APPLICABLE = {}
 # built, but their fix stage is in progress (model already in the repaired state, patches not yet committed to /repo)
-PENDING = {"C01", "C02", "C04", "C07", "C10", "C11", "C12", "C14", "C16"}
+PENDING = {"C01", "C02", "C04", "C07", "C10", "C11", "C12", "C14", "C15", "C16"}
 COMMON_NOTE = ("Trusted: Coq 8.16.1 kernel (+vm_compute), extraction (ExtrOcamlBasic, ExtrOcamlString), OCaml driver, the Python harness, "
                "CPython/torch as referents. Theorems are about the hand-written model; the model<->code tie is this run's differential "
                "correspondence, bounded by its generators (distribution in the evidence). ")
@@ -180,6 +180,24 @@ CHECKS = {
                  "exception injected at every point; output inside the block vs torch.func.functional_call, also under vmap."),
         "note": COMMON_NOTE + "Module forward, functorch and acyclicity of the module graph are assumed. Known findings in findings.d/C13.json.",
         "technique": "Coq invariant proofs over a module-heap model + extracted-model differential run + identity oracle with fault injection",
+    },
+    "C15": {
+        "text": ("Proof (Coq, partial): (a) finite theorems over tables re-translated from tensorclass.py / _torch_func.py on every run (ast only) and "
+                 "the run-time reflection list: wrap and no-wrap tables are disjoint, every listed name exists, FORCE/COPY names end up served by the "
+                 "re-wrapping wrapper after replaying the installation order, every public tensordict attribute is dispatched by exactly one "
+                 "mechanism (robust to harmless table<->fallback moves), properties stay properties, every pass-through torch function is registered; "
+                 "(b) for ALL inputs on the model of the wrappers and the two-store state: the re-wrapping wrapper returns self for the tensordict "
+                 "itself, an instance of the class carrying every non-None non-tensor value for a tensordict whose keys are fields, out= as it is, "
+                 "tuples element-wise; _from_tensordict puts every field in exactly one store and rejects clashes and foreign keys; attribute "
+                 "access is key access; assignment reads back by the cast rules, frames the other fields and keeps the invariant; indexing and "
+                 "indexed assignment keep the split. NOT proved: equality of results per method — that is decided per run by the differential "
+                 "`tc.m(*a)` vs `td.m(*a)` for EVERY public method / operator found by dir() and every overridden torch function, on 12 classes "
+                 "(decorator / subclass / nested / frozen / shadow / autocast / nocast) x 5 layouts, alone, nested and lazily stacked; methods "
+                 "whose arguments cannot be synthesised are listed in the evidence."),
+        "note": COMMON_NOTE + "The oracle accepts a fresh instance where the tensordict returns itself (identity convention checked by the model "
+                "correspondence), tolerates rejection when the result leaves the class structure, compares structure only for non-reproducible "
+                "values. Known findings in findings.d/C15.json.",
+        "technique": "Coq finite theorems over ast-translated delegation tables + wrapper/store model theorems + reflection-driven differential run",
     },
     "C16": {
         "text": ("Proof (Coq): a non-tensor entry `nt := Shared payload shape | Stack dim members` denotes a batch-shaped array of objects, and for ALL "
